@@ -24,7 +24,7 @@ ASSUMPTIONS = [
 ]
 
 SPECS = ["default", "ID", "Name", "ID,Name", "Name,ID", "Alias,ID", "dict", "dict2", ":seqid:", ":source:", ":strand:", ":featuretype:",
-         "call_none", "call_name", "call_auto", "call_mixed"]
+         "call_none", "call_name", "call_auto", "call_mixed", "call_auto_colon"]
 
 
 def spec_object(name, gtf):
@@ -48,6 +48,8 @@ def spec_object(name, gtf):
         return lambda f: ("N:" + f.attributes["Name"][0]) if "Name" in f.attributes and f.attributes["Name"] else None
     if name == "call_auto":
         return lambda f: "autoincrement:" + f.seqid
+    if name == "call_auto_colon":
+        return lambda f: "autoincrement:" + f.seqid + ":" + f.featuretype
     if name == "call_mixed":
         return lambda f: ("autoincrement:" + f.featuretype + "X") if f.strand == "-" else (
             f.attributes["ID"][0] if "ID" in f.attributes and f.attributes["ID"] else None)
@@ -92,6 +94,9 @@ def ref_ids(records, spec, gtf):
             keys = None
         elif s == "call_auto":
             out.append(auto(r["cols"][0]))
+            continue
+        elif s == "call_auto_colon":
+            out.append(auto(r["cols"][0] + ":" + ft))
             continue
         elif s == "call_mixed":
             if r["cols"][6] == "-":
